@@ -183,6 +183,18 @@ def _tc_histories(sp, tcm, check_pus_crc, c, app, want, tc):
     d1.pack()
     eq(devs, "hist.defaults.second_object_unaffected", bytes(d2.pack()), wdef)
     eq(devs, "hist.defaults.third_object_unaffected", bytes(tcm.PusTc(service=c["service"], subservice=c["subservice"]).pack()), wdef)
+    d3 = tcm.PusTc(service=c["service"], subservice=c["subservice"])
+    d3.app_data += b"\x07\x08"
+    eq(devs, "hist.defaults.app_data_appended_in_place.bytes", bytes(d3.pack()), RP.pus_tc(0, 0, c["service"], c["subservice"], 0, 0b1111, b"\x07\x08"))
+    eq(devs, "hist.defaults.app_data_appended_in_place.later_object", bytes(tcm.PusTc(service=c["service"], subservice=c["subservice"]).pack()), wdef)
+    # printing is pure: str() / repr() of a never-packed telecommand change nothing about what is packed after a later field change
+    for printed in (False, True):
+        o = build_tc(tcm, c, app)
+        if printed:
+            str(o), repr(o), str(o.pus_tc_sec_header), repr(o.sp_header)
+        o.apid = (c["apid"] + 1) % 2048
+        w2 = RP.pus_tc((c["apid"] + 1) % 2048, c["seq"], c["service"], c["subservice"], c["source_id"], c["ack"], app)
+        eq(devs, f"hist.never_packed_{'printed_then_' if printed else ''}changed.pack_without_recalc", bytes(o.pack(recalc_crc=False)), w2)
     # caller-owned bytearray as application data, space-packet view taken (twice) before packing
     caller = bytearray(app)
     t = build_tc(tcm, c, caller)
